@@ -331,6 +331,10 @@ func runC07(w *mon.W) {
 		case 3:
 			if _, ok := snap.AA["*"]; ok && snap.total("*") > 0 {
 				b[pos] = "é"
+				if r.Intn(2) == 0 {
+					// a letter of two or three bytes whose code point ends in the byte of an encodable residue
+					b[pos] = string(rune(0x100*(1+r.Intn(0x4f)) + int(good[r.Intn(len(good))][0])))
+				}
 			} else {
 				b[pos] = "*"
 			}
